@@ -18,7 +18,7 @@ import re
 import six
 
 from genshi.core import Attrs, QName, stripentities
-from genshi.core import END, START, TEXT, COMMENT
+from genshi.core import END, START, TEXT, COMMENT, PI
 
 __all__ = ['HTMLFormFiller', 'HTMLSanitizer']
 __docformat__ = 'restructuredtext en'
@@ -407,6 +407,11 @@ class HTMLSanitizer(object):
                             waiting_for = None
                 else:
                     yield kind, data, pos
+
+            elif kind is PI and ('>' in data[0] or '>' in data[1]):
+                # An HTML parser ends a processing instruction at the first
+                # '>': what follows would be read as markup
+                continue
 
             elif kind is not COMMENT:
                 if waiting_for is None:
